@@ -17,6 +17,7 @@ use crate::transform_attr::TransformAttr;
 use crate::types::{
     attr_split, attr_split_cycle, extract_elref, fstr, strp, AttrMap, ClassList, OrderIndex,
 };
+use quick_xml::escape::escape;
 
 use core::fmt::Display;
 use std::collections::HashMap;
@@ -298,7 +299,7 @@ impl SvgElement {
                 [elem] => {
                     events.push(OutputEvent::Start(elem.clone()));
                     if let Some(value) = &elem.text_content {
-                        events.push(OutputEvent::Text(value.clone()));
+                        events.push(OutputEvent::Text(escape(value.as_str()).into_owned()));
                     } else {
                         return Err(SvgdxError::InvalidData(
                             "Text element should have content".to_owned(),
@@ -317,7 +318,7 @@ impl SvgElement {
                         // misalignment - see https://stackoverflow.com/q/41364908
                         events.push(OutputEvent::Start(elem.clone()));
                         if let Some(value) = &elem.text_content {
-                            events.push(OutputEvent::Text(value.clone()));
+                            events.push(OutputEvent::Text(escape(value.as_str()).into_owned()));
                         } else {
                             return Err(SvgdxError::InvalidData(
                                 "Text element should have content".to_owned(),
